@@ -17,7 +17,8 @@ closed-form derivative must raise ``OpNotImplementedError``.
 Oracle: central-difference ladder with an observed-order test against
 ``op.derivative(x)(d)``; ``D.is_linear`` (and numerically), ``D.domain``,
 ``D.range``; operators flagged linear are their own derivative; affine ones
-have the matrix of their linear part.
+have the matrix of their linear part; the returned derivative is a snapshot
+(it does not change when the caller later modifies x in place).
 """
 import numpy as np
 from hypothesis import strategies as st
@@ -83,6 +84,9 @@ TOLERANCES = {
                        'intermediate value of the evaluation at d)',
     'affine-matrix': 'matrix of D equals matrix of op (flat.opmatrix) up to '
                      '256*eps*max|M|, real dimension <= 24',
+    'snapshot': 'D(d) before and after the caller modifies its base point in '
+                'place (x <- 1.5 x + 0.25) must be bit-identical (same '
+                'operator, same argument)',
     'margin': 'base points (and every intermediate value inside a tree) stay '
               '>= 0.25 (relative distance for poles) away from the '
               'non-differentiable set of each leaf; h0*|d| <= margin/2',
@@ -1086,9 +1090,96 @@ def _run_case(desc):
                                 np.abs(M - MD).max(initial=0)))
         strata.append('affine-matrix-checked')
 
+    # the returned derivative is a snapshot: it must not change when the
+    # caller modifies its base point in place afterwards ----------------------
+    if env.info(dom).cat != 'field':
+        d0 = dirs[0]
+        before = ex.to_np(guard(lambda: D(env.element(dom, d0)),
+                                'deriv-call', d0), env.set(ran))
+        _mutate(env, dom, xe)
+        after = ex.to_np(guard(lambda: D(env.element(dom, d0)),
+                               'deriv-call', d0), env.set(ran))
+        if not _same(before, after):
+            culprit = _snapshot_culprit(env, root, x, d0)
+            raise Violation('C06|snapshot|{}|{}'.format(
+                _site(culprit), _region(env, culprit.node)),
+                'D = op.derivative(x) changes when x is modified in place '
+                'afterwards: D(d) {} -> {} (culprit {} inside {})'.format(
+                    np.array2string(ex.vflat(before)[:4], precision=6),
+                    np.array2string(ex.vflat(after)[:4], precision=6),
+                    ex.node_pattern(culprit), ex.node_pattern(root)))
+        strata.append('snapshot-checked')
+
     nontriv = _nonlinear_by_construction(tree)
     return Outcome('ok', strata=strata, nontrivial=nontriv,
                    notes={'directions': len(dirs)})
+
+
+def _mutate(env, key, xe):
+    """Modify the ODL element ``xe`` in place: x <- 1.5 x + 0.25 (keeps
+    positive points positive)."""
+    space = env.set(key)
+    xe.lincomb(1.5, xe, 0.25, space.one())
+
+
+def _same(a, b):
+    fa, fb = ex.vflat(a), ex.vflat(b)
+    return fa.shape == fb.shape and bool(np.all(
+        (fa == fb) | (np.isnan(fa) & np.isnan(fb))))
+
+
+def _snapshot_culprit(env, root, x, d0=None):
+    """Smallest subtree that receives the caller's x itself and whose own
+    derivative keeps it by reference."""
+    tr = Tracer(env)
+    try:
+        tr.ev(root, x)
+    except Exception:  # noqa
+        return root
+    order = []
+
+    def post(b):
+        for k in b.kids:
+            if k is not None:
+                post(k)
+        order.append(b)
+    post(root)
+    def part_of(v, whole, other=None):
+        """(True, matching part of ``other``) if ``v`` is (a component of)
+        ``whole``."""
+        if v is whole:
+            return True, other
+        if isinstance(whole, list):
+            for i, c in enumerate(whole):
+                hit, sub = part_of(v, c, None if other is None else other[i])
+                if hit:
+                    return True, sub
+        return False, None
+
+    for b in order:
+        xin = tr.inputs.get(id(b))
+        if b is root or xin is None:
+            continue
+        hit, dpart = part_of(xin, x, d0)
+        if not hit:
+            continue
+        key = b.node['dom']
+        for dd in (dpart, _generic_dir(env, key, xin)):
+            if dd is None or ex.vmaxabs(dd) == 0:
+                continue
+            try:
+                xb = env.element(key, xin)
+                Db = b.obj.derivative(xb)
+                y0 = ex.to_np(Db(env.element(key, dd)),
+                              env.set(b.node['ran']))
+                _mutate(env, key, xb)
+                y1 = ex.to_np(Db(env.element(key, dd)),
+                              env.set(b.node['ran']))
+                if not _same(y0, y1):
+                    return b
+            except Exception:  # noqa
+                continue
+    return root
 
 
 def _coord_dir(x, idx):
@@ -1188,4 +1279,4 @@ REQUIRED_STRATA = (
      'class:FunctionalLeftVectorMult', 'ctor:sum:ctor_tmp',
      'field:cplx', 'dtype:float32', 'space:discr', 'weighting:array',
      'not-offered:PointwiseNorm:inf', 'ufunc-enum:not-offered',
-     'linear-flagged', 'deriv-linearity-checked'])
+     'linear-flagged', 'deriv-linearity-checked', 'snapshot-checked'])
